@@ -132,7 +132,7 @@ pub fn bcrypt(cx: &mut Ctx, args: &Args, rng: &mut Rng) -> i32 {
     for scen in scenarios {
         cx.reset("bcrypt");
         // concretise: two keys and two salts of assorted lengths (1..72, incl. non multiples of 4)
-        let lens = [1usize, 3, 4, 5, 7, 8, 16, 17, 31, 55, 56, 57, 71, 72];
+        let lens = [1usize, 2, 3, 4, 5, 7, 8, 16, 17, 31, 55, 56, 57, 71, 72, 73, 100, 255];
         let keys: Vec<Vec<u8>> = (0..2).map(|_| { let l = lens[rng.below(lens.len())]; if rng.below(5) == 0 { vec![0u8; l] } else { rng.bytes(l) } }).collect();
         let salts: Vec<Vec<u8>> = (0..2).map(|i| { let l = if i == 0 { 16 } else { lens[rng.below(lens.len())] }; rng.bytes(l) }).collect();
         let id = cx.fresh_id();
